@@ -64,6 +64,7 @@ func (t *Transcoder) ServeHTTP(writer http.ResponseWriter, request *http.Request
 
 	if t.unknownHandler != nil && errors.Is(err, errNotFound) {
 		op.request.Header = op.originalHeaders // restore headers, just in case initialization removed keys
+		op.restoreContentLength()
 		t.unknownHandler.ServeHTTP(writer, op.request)
 		return
 	}
@@ -79,6 +80,7 @@ func (t *Transcoder) ServeHTTP(writer http.ResponseWriter, request *http.Request
 		// No transformation needed. But we do need to restore the original headers first
 		// since extracting request metadata may have removed keys.
 		op.request.Header = op.originalHeaders
+		op.restoreContentLength()
 		op.methodConf.handler.ServeHTTP(writer, op.request)
 		return
 	}
@@ -484,6 +486,14 @@ func (o *operation) validate(transcoder *Transcoder) error {
 
 	o.isValid = true // Successfully validated!
 	return nil
+}
+
+// restoreContentLength undoes the reset done by validate, for requests that
+// are forwarded without transformation.
+func (o *operation) restoreContentLength() {
+	if o.originalHeaders != nil {
+		o.request.ContentLength = o.contentLen
+	}
 }
 
 func (o *operation) queryValues() url.Values {
